@@ -56,7 +56,7 @@ the unchanged tree and non-zero (with a message explaining what went wrong) with
 - `demo.cpp` and `demo_build.sh` (exact compile+run commands; must work with the tree path given as `$1`),
 - `NOTES.md` — what the change is, why it breaks the property, what exactly is needed to trigger it, which existing
   tests you ran (commands + results before/after), and the demo output before/after.
-Leave the source change applied in the worktree. Reply with a short summary (≤ 25 lines).
+Leave the source change applied in the worktree. NEVER use `git stash` (the stash is shared between worktrees): to test the unchanged tree use `git apply -R SEED/patch.diff` and afterwards `git apply SEED/patch.diff`. In demo_build.sh list source files explicitly (no brace expansion). Reply with a short summary (≤ 25 lines).
 """
 os.makedirs(os.path.join(wt, "SEED"), exist_ok=True)
 os.makedirs(os.path.join(wt, "_cfg"), exist_ok=True)
